@@ -104,6 +104,16 @@ func c03CtorVerifies(c *Ctx) {
 				}
 				return nil
 			},
+			Instr: func(st *State, ins ssa.Instruction) {
+				if sto, ok := ins.(*ssa.Store); ok {
+					if fa, ok := st.Resolve(sto.Addr).(*ssa.FieldAddr); ok && fieldOf(fa) == "Chunk.id" && isParam(st.ArgOf(sto.Val), idParam) {
+						k := st.cell(sto.Addr)
+						v := st.V[k]
+						v.Sym = "requested-id"
+						st.V[k] = v
+					}
+				}
+			},
 			Call: func(st *State, call *ssa.Call) map[int]Val {
 				if callee(call) == "(desync.HashAlgorithm).Sum" {
 					// the hash must be taken over the decoded data
@@ -125,7 +135,9 @@ func c03CtorVerifies(c *Ctx) {
 					return hasOrigin(v, func(o string) bool { return o == "call:(*desync.Chunk).ID#0" })
 				}
 				isID := func(v ssa.Value) bool {
-					return isParam(st.ArgOf(v), idParam) || (idStored && onlyOrigins(v, func(o string) bool { return o == "field:Chunk.id" }))
+					// the parameter itself, or the chunk's id field while it still holds the parameter
+					// (a call of ID() in between overwrites the field with the computed sum)
+					return isParam(st.ArgOf(v), idParam) || (idStored && st.Eval(v).Sym == "requested-id")
 				}
 				if eqOnTrue, ok := equalEdge(iff, isSum, isID); ok && (iff.Parent() == fn || isNewHelper(iff.Parent())) {
 					if taken == eqOnTrue {
